@@ -82,7 +82,7 @@ theorem cache_sound_partial (sigValid : SigOracle) (cfg : CacheConfig) (hist : L
     (hcap : ∀ r ∈ hist, LifetimeCapped sigValid cfg r)
     (hpw : hist.Pairwise PairOK) :
     AllSecure (fun r _ => SecureOK sigValid r) hist (runHistoryPreFix sigValid cfg [] hist) :=
-  allSecure_of_sound sigValid cfg servePreFix _ PairOK (LifetimeCapped sigValid cfg)
+  allSecure_of_sound sigValid cfg servePreFix _ PairOK Bounds (LifetimeCapped sigValid cfg)
     (fun past r v fresh hs hsec hb hp => step_secure_partial sigValid cfg past r v fresh hs hsec hb hp)
     [] hist _ (cache_provenanceG sigValid cfg servePreFix hist)
     (fun r hr => ⟨hb r hr, hcap r hr⟩) (by simp) hpw
